@@ -43,7 +43,10 @@ def H_doc(kind, SR, fc, order, dc, N):
 
 
 def bins_check(fn, label, x, H, N):
-    y = fn(x)
+    try:
+        y = fn(x)
+    except Exception as e:  # noqa: BLE001 -- the filter itself raised on a legal call
+        return f"{label}: raised {type(e).__name__}: {e}"
     if not isinstance(y, np.ndarray) or y.shape != (N,):
         return f"{label}: output shape {getattr(y, 'shape', None)} for input length {N}"
     if np.iscomplexobj(y):
@@ -83,7 +86,14 @@ def custom_cases(r, tier):
         if np.any(np.diff(fr) < SR * 1e-3):
             fr = np.linspace(first, last, K)
         amp = np.array([r.uniform(0.2, 3) for _ in range(K)])
-        yield N, SR, fr, amp, r.random() < 0.4
+        invert = r.random() < 0.4
+        if not invert and r.random() < 0.3:
+            # gains of exactly 0 (a DC block, a brick wall above some knot): those components are removed
+            if r.random() < 0.5:
+                amp[0] = 0.0
+            else:
+                amp[K // 2:] = 0.0
+        yield N, SR, fr, amp, invert
 
 
 def direct(seed, tier, model, stats):
@@ -96,7 +106,7 @@ def direct(seed, tier, model, stats):
         for _ in range(2 if tier == "quick" else 6):
             kind = r.choice(["HP", "LP"])
             order = r.choice([1, 2, 3, 1, 2, 3, -1, -2])      # a negative order is the opposite filter
-            SR = r.choice([1, 100, 1e4, 1e9])
+            SR = r.choice([1, 100, 1e4, 1e9, 1.2e9, 3e9])
             fc = SR * r.choice([1e-4, 1e-2, 0.12, 0.5, 3])
             dc = r.choice([0.5, 1, 2])
             inverse = r.random() < 0.5
@@ -170,7 +180,8 @@ def direct(seed, tier, model, stats):
             break
         fgrid = np.abs(np.fft.fftfreq(N, 1 / SR))
         T = np.interp(fgrid, fr, amp)
-        H = (1 / T) if invert else T
+        with np.errstate(divide="ignore"):
+            H = (1 / T) if invert else T
         if N % 3 == 0:
             fn = lambda x: ripasso.applyCustomTransferFunction(x, SR, fr, amp, invert)        # the flag as fifth positional argument
         else:
